@@ -586,7 +586,7 @@ fn budgets(t: Tier) -> (u64, u64, usize, usize) {
     // (generated in-process programs, subprocess programs, worlds in-process, worlds subprocess)
     match t {
         Tier::Quick => (simcore::scaled(1500), simcore::scaled(64), 4, 2),
-        Tier::Thorough => (simcore::scaled(60_000), simcore::scaled(1_600), 6, 3),
+        Tier::Thorough => (simcore::scaled(40_000), simcore::scaled(1_000), 6, 3),
     }
 }
 
